@@ -8,3 +8,45 @@ func Intn(n int) int       { return vsched.RandIntn(n) }
 func Int() int             { return vsched.RandIntn(0) }
 func Int63() int64         { return int64(vsched.RandIntn(0)) }
 func Int31n(n int32) int32 { return int32(vsched.RandIntn(int(n))) }
+
+// A private *Rand (rand.New(rand.NewSource(..))) is NOT safe for concurrent use in the real
+// library, unlike the package-level functions. The stand-in models exactly that: drawing a
+// value is a read, a scheduling point and a write, so two threads that share one Rand without
+// synchronisation can be handed the same value; used from one thread (or under a lock) the
+// values are successive and distinct like those of the global source.
+type Source interface {
+	Int63() int64
+	Seed(seed int64)
+}
+
+type source struct{}
+
+func (source) Int63() int64 { return 0 }
+func (source) Seed(int64)   {}
+
+func NewSource(seed int64) Source { return source{} }
+
+type Rand struct {
+	next int
+}
+
+func New(src Source) *Rand { return &Rand{} }
+
+func (r *Rand) draw() int {
+	v := r.next
+	vsched.Yield()
+	r.next = v + 1
+	return 500000 + v
+}
+
+func (r *Rand) Intn(n int) int {
+	v := r.draw()
+	if n > 0 && v >= n {
+		v %= n
+	}
+	return v
+}
+func (r *Rand) Int() int             { return r.draw() }
+func (r *Rand) Int63() int64         { return int64(r.draw()) }
+func (r *Rand) Int31n(n int32) int32 { return int32(r.Intn(int(n))) }
+func (r *Rand) Seed(int64)           {}
